@@ -1887,6 +1887,7 @@ class UserSpaceImpl(*_user_space_impl_base):
 
     def on_del_cells(self, name):
         cells = self.cells[name]
+        self.clear_subs_rootitems()     # ItemSpaces hold copies of the cells
         self.model.clear_obj(cells)
         self.cells.del_item(name)
         cells.on_delete()
